@@ -247,6 +247,7 @@ func NewClient(cfgJSON []byte) (*Client, error) {
 
 // Datagram is one received datagram.
 type Datagram struct {
+	RawLen  int // size of the datagram on the wire (peers only)
 	Payload []byte
 	From    netip.AddrPort // for peers: the source the protocol reports; for targets: the sender
 	Raw     netip.AddrPort // transport-level sender
@@ -291,7 +292,7 @@ func (p *UDPPeer) readLoop(uc *net.UDPConn) {
 		if err != nil {
 			p.errs = append(p.errs, err.Error())
 		} else {
-			p.got = append(p.got, Datagram{Payload: append([]byte{}, b[ps:ps+pl]...), From: src, Raw: from})
+			p.got = append(p.got, Datagram{RawLen: n, Payload: append([]byte{}, b[ps:ps+pl]...), From: src, Raw: from})
 		}
 		p.mu.Unlock()
 	}
@@ -314,6 +315,19 @@ func (p *UDPPeer) Send(target conn.Addr, payload []byte) error {
 	b := make([]byte, hr.Front+len(payload)+hr.Rear+16)
 	copy(b[hr.Front:], payload)
 	dest, ps, pl, err := p.Sess.Packer.PackInPlace(context.Background(), b, target, hr.Front, len(payload))
+	if err != nil {
+		return err
+	}
+	_, err = p.Conn.WriteToUDPAddrPort(b[ps:ps+pl], dest)
+	return err
+}
+
+// SendVia packs a datagram for target but transmits it to dest (e.g. the server's other address family).
+func (p *UDPPeer) SendVia(target conn.Addr, payload []byte, dest netip.AddrPort) error {
+	hr := p.Info.PackerHeadroom
+	b := make([]byte, hr.Front+len(payload)+hr.Rear+16)
+	copy(b[hr.Front:], payload)
+	_, ps, pl, err := p.Sess.Packer.PackInPlace(context.Background(), b, target, hr.Front, len(payload))
 	if err != nil {
 		return err
 	}
